@@ -202,6 +202,7 @@ func runC08(c C08Case) *Outcome {
 		}
 	}
 	var log []string
+	var digs []string // per-step digests of everything observable (determinism self-test)
 	fail := func(sig, f string, a ...any) *Outcome {
 		o.Violation = fmt.Sprintf(f, a...) + "\n  notebook at start: " + c.Notebook + "\n  steps:\n    " + strings.Join(log, "\n    ")
 		o.Sig = "C08/" + sig
@@ -273,6 +274,7 @@ func runC08(c C08Case) *Outcome {
 				return o
 			}
 			log = append(log, fmt.Sprintf("%s -> %s", quoteArgs(argsOf(args...)), exitDesc(res)))
+			digs = append(digs, stepDigest(res))
 			if res.Exit == "panic" || res.Exit == "fatal" {
 				return fail("crash:"+args[0], "step %d: %s crashed: %s", i, args[0], exitDesc(res))
 			}
@@ -368,6 +370,7 @@ func runC08(c C08Case) *Outcome {
 				return o
 			}
 			log = append(log, fmt.Sprintf("%s -> %s", quoteArgs(argsOf(args...)), exitDesc(res)))
+			digs = append(digs, stepDigest(res))
 			if res.Exit != "exit" {
 				return fail("crash:search", "step %d: search crashed: %s", i, exitDesc(res))
 			}
@@ -409,7 +412,7 @@ func runC08(c C08Case) *Outcome {
 	o.Evals = w.steps
 	o.NonTrivial = saves >= 2 || (saves >= 1 && found >= 1)
 	o.Behaviour = c.Notebook + " " + strings.Join(beh, "")
-	o.Digest = digestOf(log)
+	o.Digest = digestOf([]any{log, digs})
 	return o
 }
 
